@@ -109,6 +109,10 @@ def programs(ctx, variant=0):
     n = r.randint(2, 4)
     P["rejected-many"] = dict(files={"main.sy": "start :: fn do\n%send\n" % "".join(
         "    v%d := undefined_%d_%d\n" % (i, i, a) for i in range(n))}, main="main.sy", uses_std=False)
+    # error counts around a multiple of 256 (an exit status keeps only the low 8 bits)
+    nerr = [256, 512, 255, 257][variant % 4]
+    P["rejected-%d-errors" % nerr] = dict(files={"main.sy": "".join("w%d := := %d\n" % (i, i) for i in range(nerr))
+                                                  + "start :: fn do end\n"}, main="main.sy", uses_std=False)
     P["rejected-syntax-2files"] = dict(files={
         "main.sy": "use other\nstart :: fn do\n    x := )\nend\n",
         "other.sy": "f :: fn do\n    1 +\nend\n"}, main="main.sy", uses_std=False)
